@@ -72,6 +72,16 @@ def run(tier):
             unpriv.add(len(scen))
             scen.append(sc_)
     run.extra["unprivileged_scenarios"] = len(unpriv)
+    # environment of the process: a low descriptor limit with more files than descriptors; a temporary directory ($TMPDIR)
+    # that lies on another file system than the output directory
+    special = {}
+    special[len(scen)] = {"nofile": 64}
+    scen.append((300, 256, "many", None, 4))
+    shm = "/dev/shm"
+    if os.path.isdir(shm) and os.access(shm, os.W_OK) and os.stat(shm).st_dev != os.stat(os.environ.get("VERIF_TMP", "/tmp")).st_dev:
+        special[len(scen)] = {"tmpdir_other_fs": True}
+        scen.append((5, 20000, "./x/y", None, 4))
+    run.extra["special_environment_scenarios"] = [dict(v) for v in special.values()]
     pubbin = None
     events = []
     metas = []
@@ -104,14 +114,23 @@ def run(tier):
         else:
             reqdir = os.path.normpath(o)
             args += ["-o", o]
+        sp = special.get(si, {})
+        xenv = {"GOMAXPROCS": str(gmp)}
+        tmpother = None
+        if sp.get("tmpdir_other_fs"):
+            import tempfile
+            tmpother = tempfile.mkdtemp(prefix="verif-rdgen-tmp.", dir="/dev/shm")
+            xenv["TMPDIR"] = tmpother
         before = snapshot(cwd)
-        p = vlib.run_bin(pubbin if user else gen, args, timeout=300, env={"GOMAXPROCS": str(gmp)}, cwd=cwd, taskset=ts, user=user)
+        p = vlib.run_bin(pubbin if user else gen, args, timeout=300, env=xenv, cwd=cwd, taskset=ts, user=user, nofile=sp.get("nofile"))
         hang = bool(getattr(p, "timed_out", False))
         if hang:
-            p2 = vlib.run_bin(pubbin if user else gen, args, timeout=300, env={"GOMAXPROCS": str(gmp)}, cwd=cwd, taskset=ts, user=user)
+            p2 = vlib.run_bin(pubbin if user else gen, args, timeout=300, env=xenv, cwd=cwd, taskset=ts, user=user, nofile=sp.get("nofile"))
             if not getattr(p2, "timed_out", False):
                 p, hang = p2, False
         after = snapshot(cwd)
+        if tmpother:
+            shutil.rmtree(tmpother, ignore_errors=True)
         created = []
         for path, (size, sha) in sorted(after.items()):
             if before.get(path) != (size, sha):
@@ -132,7 +151,7 @@ def run(tier):
                 det_s, det_bits = 0, 0
         events.append({"ev": "gen", "s": s, "n": n, "dir": reqdir, "code": p.returncode if not hang else -9, "hang": hang, "created": created,
                        "det_s": det_s, "det_bits": det_bits, "id": si})
-        metas.append({"args": args, "taskset": ts, "gomaxprocs": gmp, "user": user or "(the check's own)", "stderr": (p.stderr or "")[-400:]})
+        metas.append({"args": args, "taskset": ts, "gomaxprocs": gmp, "user": user or "(the check's own)", "special": sp, "stderr": (p.stderr or "")[-400:]})
         run.nontriv(json.dumps([s, n, o, ts, gmp]))
     acc, rej, gen_ = vlib.validate_trace("TraceGen", events, timeout=900, max_rej=50, nsplit=4)
     run.states += acc; run.transitions += gen_; run.traces += acc; run.evaluations += len(events)
